@@ -605,8 +605,14 @@ func (c *updater) buildBackendCustomConfig(d *backData) {
 			return
 		}
 		for _, line := range lines {
-			if firstToken(line) == keyword {
+			token := firstToken(line)
+			if token == keyword {
 				c.logger.Warn("skipping configuration snippet on %s: keyword '%s' not allowed", source, keyword)
+				return
+			}
+			if strings.ContainsAny(token, "\"'\\$") {
+				// haproxy removes quotes and escapes from every word of a line, the keyword included
+				c.logger.Warn("skipping configuration snippet on %s: quoted or escaped keyword '%s' not allowed", source, token)
 				return
 			}
 		}
